@@ -207,6 +207,24 @@ my_fileset_reload(struct my_fileset *fs)
 	      sizeof(void *),
 	      cmp_fileset_entry);
 
+	/* A path named more than once in the setfile gets one entry. */
+	size_t n_uniq = 0;
+	for (size_t i = 0; i < entry_vec_size(new_entries); i++) {
+		struct fileset_entry *prev;
+
+		ent = entry_vec_value(new_entries, i);
+		prev = (n_uniq > 0) ? entry_vec_value(new_entries, n_uniq - 1) : NULL;
+		if (prev != NULL && strcmp(prev->fname, ent->fname) == 0) {
+			if (ent->ptr != prev->ptr && fs->unload)
+				fs->unload(fs, ent->fname, ent->ptr);
+			free(ent->fname);
+			free(ent);
+		} else {
+			entry_vec_data(new_entries)[n_uniq++] = ent;
+		}
+	}
+	entry_vec_clip(new_entries, n_uniq);
+
 	for (size_t i = 0; i < entry_vec_size(fs->entries); i++) {
 		ent = entry_vec_value(fs->entries, i);
 		assert(ent != NULL);
